@@ -318,3 +318,60 @@ CLAIMS["C13"] = {
             "lists for a file and its copy are not decided; alert-level "
             "cues are out of scope.",
 }
+
+CLAIMS["C04"] = {
+    "technique": "typestate / ordering rules on the CFG of the refresh; "
+                 "reset-set ⊇ memo-set; symbolic evaluation of the mapper, "
+                 "hierarchy-filter and Child* accessor syntax trees on all "
+                 "small hierarchies (every parent filter of 3–4 events, "
+                 "depth 1–3)",
+    "text": "Refresh order (retrieve manual indices ≺ parent refresh ≺ "
+            "invalidation ≺ re-creation of the child filter ≺ own filter) "
+            "holds on every path; every memoised attribute that depends on "
+            "the parent's filter is reset; each accessor of the four Child* "
+            "classes and the four index mappers, interpreted on every "
+            "filter of a small model family, equal their specification; the "
+            "parent-change witness covers all ancestors; retrieve/apply of "
+            "hidden manual exclusions satisfy their single-step algebra.",
+    "note": "The index-set algebra over arbitrary interleavings of edits "
+            "and refreshes (beyond single steps on small models) and value "
+            "equality of features are not decided; an exclusion taken back "
+            "while it is the only one is remembered by design.",
+}
+CLAIMS["C08"] = {
+    "technique": "symbolic evaluation of the copier's syntax trees on a "
+                 "model of h5py objects for every storage layout class; "
+                 "taint from source parameters to write sinks; sibling "
+                 "agreement of copy routes; table sharing between copier "
+                 "and reader",
+    "text": "h5ds_copy / rtdc_copy / condense_dataset are interpreted on "
+            "model files (contiguous, chunked, chunk larger than data, "
+            "weakly/properly compressed, variable-length strings, n-d, "
+            "groups, empty datasets): every element is written once under "
+            "the right name, attributes survive on every route (root, "
+            "features, logs, tables), the sealed model source is never "
+            "written, a second pass is the identity, the condense feature-"
+            "set algebra holds for all 16 option combinations, the "
+            "defective-feature table is the reader's.",
+    "note": "Value identity through real HDF5 filters and tdms decoding are "
+            "not decided; the h5py model is cross-validated against the "
+            "installed h5py on 16 facts (thorough tier).",
+}
+CLAIMS["C18"] = {
+    "technique": "sibling idiom rule; dominance of casts over arithmetic; "
+                 "polynomial / rational-function identities for cone "
+                 "volume, moments and crosstalk inversion; orientation-"
+                 "consistency def-use rule",
+    "text": "Narrow claim: presence tests of the optional offset are "
+            "`is None` tests in both brightness siblings, signed cast before "
+            "background subtraction, statistics over the masked pixels, "
+            "offset on location statistics only; 64-bit cast dominates every "
+            "moment product; cone-volume and moment formulas are exact "
+            "polynomial identities with the documented scale powers; "
+            "correct_crosstalk inverts the modelled spill-over exactly over "
+            "the rationals; r and z handed to vol_revolve derive from the "
+            "same (re-oriented) contour.",
+    "note": "Contour<->mask round trip, translation/rotation invariance, "
+            "convergence of the volume and marching squares "
+            "(_find_contours_cy.pyx) are numerical and not decided.",
+}
